@@ -237,11 +237,15 @@ func main() {
 		if abs, err := filepath.Abs(*replayF); err == nil {
 			*replayF = abs // the harness runs in its scratch directory
 		}
-		os.Exit(doReplay(harnessOf(*replayF), *replayF))
+		rc := doReplay(harnessOf(*replayF), *replayF)
+		cleanup()
+		os.Exit(rc)
 	}
 
 	if *selftest > 0 {
-		os.Exit(doSelftest(getBin, pc, seed, *selftest))
+		rc := doSelftest(getBin, pc, seed, *selftest)
+		cleanup()
+		os.Exit(rc)
 	}
 
 	// Known findings for this property.
